@@ -431,6 +431,11 @@ class Ctx:
     self.prim_count = {}
     self.rand = {}
     self.sqrt_hook = None     # optional f(ctx, a) -> value or None
+    self.sqrt_candidates = []  # candidate closed forms r for sqrt arguments (checked by lemma queries)
+    self.sqrt_folded = {}
+    self.lemma_stats = {'queries': 0, 'folded': 0, 'time': 0.0}
+    self.tvars = {}           # tparam mode: key -> t with (sin, cos) = (2t/(1+t^2), (1-t^2)/(1+t^2))
+    self.tdefs = {}           # t name -> argument term
     self.lemma_timeout = 20000
 
   def fresh(self, p, sort='real'):
@@ -456,12 +461,41 @@ class Ctx:
       if r is not None:
         return r
     k = a.get_id()
+    if k not in self.sqrts and self.sqrt_candidates:
+      r = self._sqrt_by_lemma(a)
+      if r is not None:
+        return r
     if k not in self.sqrts:
       y = self.fresh('sqrt')
       self.side += [y >= 0, y * y == a]
       self.sqrts[k] = (y, a)
       self.keep.append(a)
     return self.sqrts[k][0]
+
+  def _sqrt_by_lemma(self, a):
+    """fold sqrt(a) to a candidate r when  assume => (a == r*r and r >= 0)  is valid (two solver lemmas, DESIGN 1.3)"""
+    from .fr import Fr
+    import time
+    k = a.get_id()
+    if k in self.sqrt_folded:
+      return self.sqrt_folded[k][1]
+    t0 = time.time()
+    res = None
+    for r in self.sqrt_candidates:
+      fr = Fr()
+      rl = lift(r)
+      s = z3.Solver()
+      s.set('timeout', self.lemma_timeout)
+      s.add([fr.formula(x) for x in self.assume])
+      s.add(z3.Not(z3.And(fr.formula(a == rl * rl), fr.formula(rl >= 0))))
+      self.lemma_stats['queries'] += 1
+      if s.check() == z3.unsat:
+        res = r
+        self.lemma_stats['folded'] += 1
+        break
+    self.lemma_stats['time'] += time.time() - t0
+    self.sqrt_folded[k] = (a, res)
+    return res
 
   # -- sin / cos
   def _angle_of(self, a):
@@ -494,9 +528,15 @@ class Ctx:
         return (s_neg(s_mul(2, s_mul(sh, ch))), s_sub(s_mul(ch, ch), s_mul(sh, sh)))
     key = z3.simplify(lift(a)).sexpr()
     if key not in self.trig:
-      s, c = self.fresh('sin'), self.fresh('cos')
-      self.side.append(s * s + c * c == 1)
-      self.trig[key] = (s, c, lift(a))
+      if self.trig_mode == 'tparam':
+        t = self.fresh('t')
+        self.tvars[av[0] if av is not None else key] = t
+        self.tdefs[t.decl().name()] = lift(a)
+        self.trig[key] = (2 * t / (1 + t * t), (1 - t * t) / (1 + t * t), lift(a))
+      else:
+        s, c = self.fresh('sin'), self.fresh('cos')
+        self.side.append(s * s + c * c == 1)
+        self.trig[key] = (s, c, lift(a))
     return self.trig[key][:2]
 
   # -- uninterpreted transcendental applications
@@ -534,18 +574,24 @@ class Ctx:
     import time
     t0 = time.time()
     res = p
+    from .fr import Fr
+    fr = Fr()
+    try:
+      p2 = fr.formula(p)
+      pre = [fr.formula(x) for x in self.assume + self.side]
+    except NotImplementedError:
+      p2, pre = p, self.assume + self.side
     s = z3.Solver()
     s.set('timeout', self.lemma_timeout)
-    s.add(self.assume)
-    s.add(self.side)
+    s.add(pre)
     s.push()
-    s.add(p)
+    s.add(p2)
     self.fold_stats['queries'] += 1
     if s.check() == z3.unsat:
       res = False
     else:
       s.pop()
-      s.add(z3.Not(p))
+      s.add(z3.Not(p2))
       self.fold_stats['queries'] += 1
       if s.check() == z3.unsat:
         res = True
@@ -943,6 +989,8 @@ def apply(ctx, e, name, ins):
       arrs = [jp.asarray(_concrete(a, v.aval.dtype)) for a, v in zip(ins, e.invars)]
       return to_obj(np.asarray(e.primitive.bind(*arrs, **p)))
     raise SXUnsupported(name + ' on symbolic')
+  if name == 'erf_inv' and all(all_concrete(a) for a in ins):
+    return to_obj(np.asarray(e.primitive.bind(jp.asarray(_concrete(ins[0], e.invars[0].aval.dtype)), **p)))
   if name == 'nextafter':
     return ins[0]
   if name == 'pmax' or name == 'pmin' or name == 'psum':
@@ -1329,9 +1377,63 @@ def _key_id(a):
   return '|'.join(str(v) if isc(v) else 'T%d' % v.get_id() for v in a.reshape(-1))
 
 
+class KeyCell:
+  """a concrete PRNG key (wraps the real jax key scalar)"""
+
+  def __init__(self, k):
+    self.k = k
+
+  def __repr__(self):
+    return 'Key(%s)' % (jax.random.key_data(self.k).tolist(),)
+
+
+def _is_key_aval(av):
+  try:
+    return jax.dtypes.issubdtype(av.dtype, jax.dtypes.prng_key)
+  except Exception:
+    return False
+
+
+def _to_jax(a, av):
+  if _is_key_aval(av):
+    flat = [c.k for c in a.reshape(-1)]
+    return jp.stack(flat).reshape(a.shape) if a.shape else flat[0]
+  return jp.asarray(_concrete(a, av.dtype))
+
+
+def _from_jax(o, av):
+  if _is_key_aval(av):
+    out = np.empty(o.shape, dtype=object)
+    for idx in np.ndindex(*o.shape):
+      out[idx] = KeyCell(o[idx])
+    return out
+  return to_obj(np.asarray(o))
+
+
+def _concrete_inputs(ins, e):
+  for a, v in zip(ins, e.invars):
+    for c in a.reshape(-1):
+      if not isc(c):
+        return False
+      if _is_key_aval(v.aval) and not isinstance(c, KeyCell):
+        return False
+  return True
+
+
+def _run_real(e, ins):
+  arrs = [_to_jax(a, v.aval) for a, v in zip(ins, e.invars)]
+  outs = e.primitive.bind(*arrs, **e.params)
+  if not e.primitive.multiple_results:
+    outs = [outs]
+  res = [_from_jax(o, v.aval) for o, v in zip(outs, e.outvars)]
+  return res if e.primitive.multiple_results else res[0]
+
+
 def _random_stub(ctx, e, ins):
   """a jitted jax.random sampler: output = fresh symbolic values, a function of the key cells only (environment stub)"""
   nm = e.params.get('name')
+  if _concrete_inputs(ins, e):
+    return _run_closed(ctx, _sub_jaxpr(e.params), ins)
   ctx.stubs.add('jax.random.%s -> fresh values determined by the key' % nm)
   outs = []
   for k, ov in enumerate(e.outvars):
@@ -1361,6 +1463,8 @@ def _random_stub(ctx, e, ins):
 
 
 def _random_prim(ctx, e, name, ins):
+  if _concrete_inputs(ins, e):
+    return _run_real(e, ins)
   ctx.stubs.add('PRNG primitive %s -> fresh values determined by its inputs' % name)
   outs = []
   for k, ov in enumerate(e.outvars):
@@ -1442,12 +1546,15 @@ def evalf(ctx, terms, env):
   for k, (y, a) in ctx.sqrts.items():
     defs[y.decl().name()] = ('sqrt', [a])
   for k, (s, c, a) in ctx.trig.items():
-    defs[s.decl().name()] = ('sin', [a])
-    defs[c.decl().name()] = ('cos', [a])
+    if z3.is_const(s) and z3.is_const(c):
+      defs[s.decl().name()] = ('sin', [a])
+      defs[c.decl().name()] = ('cos', [a])
+  for tn, a in ctx.tdefs.items():
+    defs[tn] = ('tanhalf', [a])
   for k, (v, nm, xs) in ctx.uf.items():
     defs[v.decl().name()] = (nm, xs)
   memo = {}
-  fns = {'sqrt': lambda a: math.sqrt(max(a, 0.0)), 'sin': math.sin, 'cos': math.cos, 'atan2': math.atan2,
+  fns = {'tanhalf': lambda a: math.tan(a / 2),'sqrt': lambda a: math.sqrt(max(a, 0.0)), 'sin': math.sin, 'cos': math.cos, 'atan2': math.atan2,
          'acos': lambda a: math.acos(min(1.0, max(-1.0, a))), 'asin': lambda a: math.asin(min(1.0, max(-1.0, a))),
          'exp': math.exp, 'log': math.log, 'tanh': math.tanh, 'pow': math.pow, 'log1p': math.log1p,
          'logistic': lambda a: 1 / (1 + math.exp(-a)), 'atan': math.atan, 'tan': math.tan, 'expm1': math.expm1,
